@@ -490,4 +490,18 @@ func TestVerifC02Server(t *testing.T) {
 		wb.Wait()
 	})
 	wg.Wait()
+	if m.ViolCount() > 0 {
+		return
+	}
+	// --- server E: a business error handler installed with httpx.SetErrorHandler (process-wide: runs alone)
+	c02WithErrMode("plain", func() {
+		cfg := Config{Timeout: 0, MaxConns: 100}
+		c := mk("E", cfg)
+		short := time.Duration(30+r.Intn(40)) * time.Millisecond
+		lv, ok := c02StartLive(m, "se", cfg, []c02Group{{Class: "rtlate", Method: http.MethodGet, N: 3, Timeout: short}})
+		if !ok {
+			return
+		}
+		c02LiveLate(c, lv, lv.e.routes["rtlate"], m.Rand("E"), "late:route-timeout-only", fmt.Sprintf("server with httpx.SetErrorHandler installed, route WithTimeout(%v)", short))
+	})
 }
